@@ -166,8 +166,10 @@ def eval_changes(ctx, repo, opts, focus, trail):
     cp = show_checkpoint(repo)
     args = ["analyze", "--changes"]
     need = []
-    if opts.get("begin"): args += ["--begin", opts["begin"]]; need.append(opts["begin"])
-    if opts.get("end"): args += ["--end", opts["end"]]; need.append(opts["end"])
+    # a revision may be given in any form git understands (full name, abbreviation, tag): "alias" maps the commit to what is typed
+    alias = opts.get("alias", {})
+    if opts.get("begin"): args += ["--begin", alias.get(opts["begin"], opts["begin"])]; need.append(opts["begin"])
+    if opts.get("end"): args += ["--end", alias.get(opts["end"], opts["end"])]; need.append(opts["end"])
     if cp and cp["id"]: need.append(cp["id"])
     rc, out, err, raw = vlib.monorail(repo.repo, *args)
     st = repo.observe(extra_commits=need)
@@ -291,6 +293,14 @@ def scenario(ctx, sseed, focus):
             elif k < 0.4 and len(repo.commits) >= 2:
                 opts["begin"] = rng.choice(repo.commits); opts["end"] = rng.choice(repo.commits)
             elif k < 0.5 and repo.commits: opts["end"] = rng.choice(repo.commits)
+            if opts and rng.random() < 0.4:
+                al = {}
+                for c in sorted(set(v for v in opts.values() if isinstance(v, str))):
+                    if rng.random() < 0.5: al[c] = c[:12]
+                    else:
+                        tag = "v-%s" % c[:7]
+                        subprocess.run(["git", "tag", "-f", tag, c], cwd=repo.repo, capture_output=True, env={**os.environ, **vlib.GIT_ENV}); al[c] = tag
+                opts["alias"] = al; ctx.count("revision_by_alias")
             eval_changes(ctx, repo, opts, focus, list(trail))
     finally:
         shutil.rmtree(repo.repo, ignore_errors=True)
